@@ -22,6 +22,7 @@ type deferred struct {
 	fn   Value
 	args []Value
 	pos  token.Pos
+	cond Term // non-empty: the defer statement was only reached on the paths where cond holds
 }
 
 type State struct {
@@ -839,11 +840,31 @@ func (ex *Exec) mergeStates(sts []*State) *State {
 		as = append(as, Sc{s.alloc})
 	}
 	out.alloc = ex.mergeValues(conds, as, "alloc").(Sc).T
-	// defers must agree
-	out.defers = sts[0].defers
+	// defers: the common prefix is kept as is; a defer registered on only some of the joined paths
+	// (`if c { defer f() }`) becomes conditional on that path's condition
+	n := len(sts[0].defers)
 	for _, s := range sts[1:] {
-		if len(s.defers) != len(out.defers) {
-			panic(unsupported("join of paths with different defer stacks"))
+		if len(s.defers) < n {
+			n = len(s.defers)
+		}
+	}
+	for i := 0; i < n; i++ {
+		for _, s := range sts[1:] {
+			if s.defers[i].call != sts[0].defers[i].call || s.defers[i].cond.S != sts[0].defers[i].cond.S {
+				n = i
+				break
+			}
+		}
+	}
+	out.defers = append([]deferred(nil), sts[0].defers[:n]...)
+	for i, s := range sts {
+		for _, d := range s.defers[n:] {
+			if d.cond.S == "" {
+				d.cond = conds[i]
+			} else {
+				d.cond = And(d.cond, conds[i])
+			}
+			out.defers = append(out.defers, d)
 		}
 	}
 	return out
